@@ -158,6 +158,9 @@ struct World {
     raw_push: bool,
     /// the completion phase ended because nothing moved any more (not because its rounds ran out)
     quiesced: bool,
+    /// parked writers are polled again after every stimulus that lets the task run (off while a recorded
+    /// list is replayed: the recorded polls are in the list)
+    probe: bool,
 }
 
 const NAMES: [&str; 2] = ["A", "B"];
@@ -251,6 +254,7 @@ impl World {
             huge: false,
             raw_push: false,
             quiesced: false,
+            probe: true,
         };
         for v in &mut w.view {
             v.mux_alive = true;
@@ -280,6 +284,13 @@ impl World {
             line.push(' ');
             line.push_str(x);
         }
+        // C12 (and C04 / C08): no lost wake-up. A writer that is parked with its waker not woken and is
+        // polled again with the same data — a spurious poll, which any executor may make — must still be
+        // pending: had the poll become ready (credit arrived, the stream or the connection was closed),
+        // the task owed the writer a wake-up. (Not judged after the application's own shutdown.)
+        let parked_before = matches!(t[0], "write" | "wpush") && t.len() >= 3 && t[1].parse::<usize>().ok().and_then(|h| self.view[e].handles.get(h).map(|hi| (h, hi))).is_some_and(|(h, hi)| {
+            hi.alive && !hi.shutdown && hi.pending_op == t[0] && hi.pending_write.is_some() && hi.pending_write == unhex(t[2]) && self.sims[e].wstate(h) == "parked"
+        });
         let out = if t[0] == "wstate" {
             self.sims[e].wstate(t[1].parse().unwrap_or(0))
         } else {
@@ -298,6 +309,27 @@ impl World {
         let src = self.next_src.take().unwrap_or_else(|| line.clone());
         self.steps.push(StepRec { line: line.clone(), src, out: out.clone() });
         self.observe(e, &t, &out);
+        if parked_before {
+            *self.mon.entry("parked-writer-polled-again").or_insert(0) += 1;
+            if !out.starts_with("pending") {
+                let ended = self.view[e].exited || self.view[e].terminated_by.is_some() || self.ep_faulted[e] || !self.view[e].mux_alive;
+                let msg = format!("the writer of stream {}#{} was parked with its waker not woken, yet polling it again (`{line}`) gives `{}`: the wake-up it was owed (credit arrived, or the stream / the connection was closed) was lost, a real writer would sleep for ever",
+                    NAMES[e], t[1], out.split(" | ").next().unwrap_or(""));
+                self.fail("C12", "lost-wakeup", msg.clone());
+                self.fail(if ended { "C08" } else { "C04" }, "lost-wakeup", msg);
+            }
+        }
+        // … and such a poll is made after every stimulus that lets the connection task run
+        if self.probe && matches!(t[0], "deliver" | "dropmux" | "sinkunblock" | "sinkgrant") && !self.huge {
+            for h in 0..self.view[e].handles.len() {
+                let hi = &self.view[e].handles[h];
+                if !hi.alive || hi.shutdown { continue; }
+                let Some(d) = hi.pending_write.clone() else { continue };
+                let op = hi.pending_op;
+                if self.sims[e].wstate(h) != "parked" { continue; }
+                self.stim(e, &[s(op), s(h), hexz(&d)]);
+            }
+        }
         out
     }
 
@@ -909,27 +941,29 @@ impl World {
 
 #[derive(Clone, Copy, Debug, PartialEq, Eq)]
 enum Focus {
-    C02, C03, C04, C05, C06, C07, C08, C10, C11, C15,
+    C02, C03, C04, C05, C06, C07, C08, C10, C11, C12, C15,
 }
 
 impl Focus {
     fn parse(s: &str) -> Self {
         match s {
             "C02" => Self::C02, "C03" => Self::C03, "C04" => Self::C04, "C05" => Self::C05, "C06" => Self::C06,
-            "C07" => Self::C07, "C08" => Self::C08, "C10" => Self::C10, "C11" => Self::C11, "C15" => Self::C15,
+            "C07" => Self::C07, "C08" => Self::C08, "C10" => Self::C10, "C11" => Self::C11, "C12" => Self::C12, "C15" => Self::C15,
             other => panic!("unknown focus {other}"),
         }
     }
     fn name(self) -> &'static str {
         match self {
             Self::C02 => "C02", Self::C03 => "C03", Self::C04 => "C04", Self::C05 => "C05", Self::C06 => "C06",
-            Self::C07 => "C07", Self::C08 => "C08", Self::C10 => "C10", Self::C11 => "C11", Self::C15 => "C15",
+            Self::C07 => "C07", Self::C08 => "C08", Self::C10 => "C10", Self::C11 => "C11", Self::C12 => "C12", Self::C15 => "C15",
         }
     }
 }
 
 fn gen_opts(r: &mut Rng, focus: Focus) -> SimOpts {
     let w = [1u32, 2, 3, 4, 8, 16];
+    // (C12: small windows, so that writers park)
+    let w = if matches!(focus, Focus::C12) { [1u32, 1, 2, 2, 3, 4] } else { w };
     SimOpts {
         rwnd: *r.pick(&w),
         threshold: *r.pick(&w),
@@ -1033,6 +1067,8 @@ fn run_case(r: &mut Rng, focus: Focus, len: usize) -> World {
             Focus::C08 => (25, 22, 12, 4, 4, 10, 4),
             Focus::C10 => (25, 15, 25, 3, 3, 10, 4),
             Focus::C11 => (20, 10, 1, 40, 1, 5, 2),
+            // writers parked on small windows, with acknowledgements, resets and connection ends
+            Focus::C12 => (30, 40, 3, 1, 1, 8, 3),
             Focus::C15 => (20, 10, 1, 2, 45, 5, 2),
         };
         let total = wd + ws_ + wf + wdg + wb + wo + wdrop;
@@ -1049,7 +1085,9 @@ fn run_case(r: &mut Rng, focus: Focus, len: usize) -> World {
                 continue;
             }
             let h = *r.pick(&live);
-            match r.below(10) {
+            // (C12: mostly writes, so that writers park on the small windows)
+            let sel = if focus == Focus::C12 && r.chance(1, 2) { 0 } else { r.below(10) };
+            match sel {
                 0..=3 => {
                     let hi = &w.view[e].handles[h];
                     if let Some(d) = hi.pending_write.clone().filter(|_| hi.pending_op == "wpush") {
@@ -1562,6 +1600,7 @@ fn replay_lines(lines: &[String]) -> Option<World> {
     let oa = parse_new(lines.first()?)?;
     let ob = parse_new(lines.get(1)?)?;
     let mut w = World::new([oa, ob]);
+    w.probe = false;
     for l in &lines[2..] {
         let t: Vec<String> = l.split_whitespace().map(str::to_string).collect();
         if t.len() < 2 { continue; }
@@ -1582,6 +1621,7 @@ fn replay_lines(lines: &[String]) -> Option<World> {
         }
         w.stim(e, &toks);
     }
+    w.probe = true;
     fair_completion(&mut w, 40);
     final_checks(&mut w);
     Some(w)
@@ -1782,9 +1822,9 @@ fn attribute(line: &str) -> Vec<&'static str> {
     match t[0] {
         "open" | "accept" => vec!["C07"],
         "cancelopen" => vec!["C07", "C10"],
-        "write" | "writev" | "wpush" => vec!["C02", "C03", "C04", "C05"],
+        "write" | "writev" | "wpush" => vec!["C02", "C03", "C04", "C05", "C12"],
         "read" => vec!["C02", "C03", "C04", "C05"],
-        "wstate" => vec!["C04"],
+        "wstate" => vec!["C04", "C12"],
         "shutdown" => vec!["C05"],
         "dropstream" => vec!["C06"],
         "dgsend" | "dgrecv" => vec!["C11"],
